@@ -123,6 +123,13 @@ class Ctx:
         except OSError:
             pass
         args = ["go", "build", "-tags", tags, "-o", out]
+        if os.path.abspath(REPO) != "/repo":
+            # alternate checkout (VERIF_REPO): same module, replace directive redirected through a scratch go.mod
+            mf = self.path("alt.mod")
+            with open(mf, "w") as f:
+                f.write(open(os.path.join(HARNESS, "go.mod")).read().replace("=> /repo", "=> " + os.path.abspath(REPO)))
+            shutil.copy(os.path.join(HARNESS, "go.sum"), self.path("alt.sum"))
+            args += ["-modfile", mf]
         if race:
             args.insert(2, "-race")
         args.append("./cmd/" + cmd)
@@ -324,6 +331,8 @@ class Ctx:
             "known_findings_seen": [k.get("what") for k in self.known_hits],
         }
         edir = os.path.join(VERIF, "evidence") if self.prop.startswith("C") else os.path.join(VERIF, "evidence", "extras")
+        if os.environ.get("VERIF_EVIDENCE_DIR"):
+            edir = os.environ["VERIF_EVIDENCE_DIR"]      # dry runs against another checkout must not touch the committed evidence
         os.makedirs(edir, exist_ok=True)
         tmp = os.path.join(edir, ".%s.tmp" % self.prop)
         with open(tmp, "w") as f:
@@ -363,6 +372,23 @@ def shard(rows, n):
     n = max(1, min(n, len(rows)))
     k = (len(rows) + n - 1) // n
     return [rows[i:i + k] for i in range(0, len(rows), k)]
+
+
+def balanced(rows, nshards, weight):
+    """Reorder rows so that the contiguous shards made by shard() get about the same total weight."""
+    nshards = max(1, min(nshards, len(rows)))
+    k = (len(rows) + nshards - 1) // nshards
+    bins = [[] for _ in range(nshards)]
+    loads = [0] * nshards
+    for r in sorted(rows, key=weight, reverse=True):
+        cand = [b for b in range(nshards) if len(bins[b]) < k]
+        b = min(cand, key=lambda x: loads[x])
+        bins[b].append(r)
+        loads[b] += weight(r)
+    out = []
+    for b in bins:
+        out += b
+    return out
 
 
 def parallel(fns, maxpar):
